@@ -12,6 +12,8 @@ return with O(n*m) numpy distance matrices:
 * ``median_distance``      median of the distances to the k nearest *other* points, after the projection;
 * ``distance_mask``        True where the nearest data point is closer than maxdist - margin, False where it is
                            farther than maxdist + margin (either way in between), after projecting BOTH point sets;
+                           where the distance is exact (integer coordinates with a perfect-square squared distance, or a
+                           query on a data point) equality is decided: d == maxdist must give True;
                            result shape = query shape; grid form: every variable is NaN exactly where the array form
                            on the (northing, easting) mesh of the first variable's dims is False, other cells and the
                            coordinates unchanged.
@@ -32,6 +34,8 @@ RULE = (
     "KNeighbors: k in {1,2,3,n-1,n,random}, reductions mean/median/min/max (+sum/ptp), data values unique per point, queries inside, "
     "outside and on the data, direct predict and nested through grid/scatter/profile/Chain/project_grid. median_distance: k=1..n-1. "
     "distance_mask: maxdist from the quantiles of the true nearest distances (also 0, huge, exactly a realised distance), array form "
+    "an exact class (integer-valued coordinates below 2**20, also after an identity / integer-preserving projection, Pythagorean and "
+    "axis-aligned offsets, maxdist equal to that exact distance or 0 on a data point) judged strictly: d == maxdist must be True; array form "
     "and xarray.Dataset form (dims (northing, easting) under several names, non-square and square shapes, 2-3 variables incl. integer ones and pre-existing NaN cells, "
     "ascending / descending / irregular coordinates). Projections: anisotropic scaling, shear and non-linear "
     "monotone maps, so that projecting none or one of the two point sets changes the answer. Non-trivial = KNeighbors call with k < n "
@@ -41,7 +45,8 @@ RULE = (
 ASSUMPTIONS = [
     "distances are float64 np.hypot of coordinate differences; tolerances 16 eps*max|coordinate| (+ summation terms for reductions)",
     "a neighbour set is only judged when the k-th and (k+1)-th distances differ by at least 1e-9*cloud scale + 16 eps*max|coordinate|",
-    "|nearest distance - maxdist| < 1e-9*maxdist + 16 eps*max|projected coordinate| is either-way",
+    "|nearest distance - maxdist| < 1e-9*maxdist + 16 eps*max|projected coordinate| is either-way, EXCEPT where the distance is exact for every correct implementation: integer-valued (projected) coordinates below 2**20 whose squared nearest distance is a perfect square, and a query coinciding with a data point without projection - there d <= maxdist is judged strictly",
+    "which of two equidistant neighbours KNeighbors uses is not specified: tied queries stay either-way",
     "the projection callables are pure functions (the oracle calls them itself on copies of the raveled inputs)",
     "the fitted points/data are the arguments observed at KNeighbors.fit (C-order element sequence), predictions of estimators whose fit was not observed are skipped",
     "easting and northing of a request have equal shapes (broadcasting unequal shapes is not promised)",
@@ -57,7 +62,11 @@ FLOORS = {
         "class:mask_projection_Shear": 160, "class:grid_shape_non_square": 270, "class:grid_shape_square": 60,
         "class:grid_integer_variable": 170, "would_notice:knn_k_plus_one": 1300, "would_notice:median_self_not_skipped": 350,
         "would_notice:mask_projection_on_data_only": 450, "would_notice:mask_projection_on_query_only": 450,
-        "would_notice:square_grid_mask_transposed": 50,
+        "would_notice:square_grid_mask_transposed": 50, "strict:mask_cells_at_exactly_maxdist": 890,
+        "strict:mask_cells_at_exactly_maxdist_pythagorean": 340, "strict:mask_zero_maxdist_on_a_data_point": 90,
+        "strict:mask_calls_with_cells_at_exactly_maxdist_array": 120, "strict:mask_calls_with_cells_at_exactly_maxdist_grid": 68,
+        "strict:mask_cells_exact_distance": 14500, "class:mask_integer_coordinates": 240,
+        "class:mask_projection_IntegerMap": 170, "either_way:knn_query_with_tied_kth_neighbour": 3000,
     },
     "thorough": {
         "eval:KNeighbors.predict": 25500, "eval:median_distance": 5400, "eval:distance_mask.array": 5400,
@@ -69,6 +78,11 @@ FLOORS = {
         "class:grid_shape_square": 900, "class:grid_integer_variable": 2550, "would_notice:knn_k_plus_one": 19500,
         "would_notice:median_self_not_skipped": 5250, "would_notice:mask_projection_on_data_only": 6750,
         "would_notice:mask_projection_on_query_only": 6750, "would_notice:square_grid_mask_transposed": 750,
+        "strict:mask_cells_at_exactly_maxdist": 13350, "strict:mask_cells_at_exactly_maxdist_pythagorean": 5100,
+        "strict:mask_zero_maxdist_on_a_data_point": 1350, "strict:mask_calls_with_cells_at_exactly_maxdist_array": 1800,
+        "strict:mask_calls_with_cells_at_exactly_maxdist_grid": 1020, "strict:mask_cells_exact_distance": 217500,
+        "class:mask_integer_coordinates": 3600, "class:mask_projection_IntegerMap": 2550,
+        "either_way:knn_query_with_tied_kth_neighbour": 45000,
     },
 }
 JOBS = {"quick": 1, "thorough": 8}
